@@ -27,7 +27,7 @@ class PyprojectWriter(DependencyWriter):
             # It's unlikely and bad practice to declare dependencies under [project].dependencies
             # and [tool.poetry.dependencies] but if it happens, we will give priority to poetry
             # and add dependencies under its system.
-            self._update_poetry(pyproject, dependencies)
+            dependencies = self._update_poetry(pyproject, dependencies)
         else:
             try:
                 pyproject["project"]["dependencies"].extend(
@@ -40,6 +40,10 @@ class PyprojectWriter(DependencyWriter):
         diff, added_line_nums = create_diff_and_linenums(
             tomlkit.dumps(original).split("\n"), tomlkit.dumps(pyproject).split("\n")
         )
+
+        if not added_line_nums:
+            # every dependency is already declared: leave the file untouched
+            return None
 
         if not dry_run:
             with open(self.path, "w", encoding="utf-8") as f:
@@ -62,8 +66,10 @@ class PyprojectWriter(DependencyWriter):
         self,
         pyproject: tomlkit.toml_document.TOMLDocument,
         dependencies: list[Dependency],
-    ):
+    ) -> list[Dependency]:
+        """Returns the dependencies for which an entry was actually added."""
         add_newline = False
+        added = []
 
         if pyproject.get("tool", {}).get("poetry", {}).get("dependencies") is None:
             pyproject["tool"]["poetry"].update({"dependencies": {}})
@@ -72,10 +78,12 @@ class PyprojectWriter(DependencyWriter):
         typing_location = find_typing_location(pyproject)
 
         for dep in dependencies:
+            changed = False
             try:
                 pyproject["tool"]["poetry"]["dependencies"].append(
                     dep.requirement.name, str(dep.requirement.specifier)
                 )
+                changed = True
             except tomlkit.exceptions.KeyAlreadyPresent:
                 pass
 
@@ -90,11 +98,15 @@ class PyprojectWriter(DependencyWriter):
                             type_stub_dependency.requirement.name,
                             str(type_stub_dependency.requirement.specifier),
                         )
+                        changed = True
                     except tomlkit.exceptions.KeyAlreadyPresent:
                         pass
+            if changed:
+                added.append(dep)
 
         if add_newline:
             pyproject["tool"]["poetry"]["dependencies"].add(tomlkit.nl())
+        return added
 
 
 def find_typing_location(pyproject):
